@@ -319,14 +319,14 @@ Proof.
     assert (Hidx : 0 <= idx < zlen ns) by (apply Z.mod_pos_bound; exact Hz).
     destruct (nth_error ns (Z.to_nat idx)) as [nd|] eqn:Hk.
     2:{ apply nth_error_None in Hk. unfold zlen in Hidx. lia. }
-    destruct (node_loop (node_fuel nd) nd r n slots) as [[[nd1 slots1] hit] e1] eqn:El.
+    destruct (node_loop (node_fuel nd n) nd r n slots) as [[[nd1 slots1] hit] e1] eqn:El.
     destruct (node_loop_spec ns0 h r n _ Hr _ _ _ _ _ _ _ _ HI Hk HS El) as [A [B [C [D E]]]].
     destruct e1 as [x|].
     + injection Hl as <- <- <- <-.
       split; [exact A|]. split; [exact B|]. split; [exact C|]. split; [intro H; discriminate H|].
       intros Hnc Hco. exfalso. destruct A as [A|A]; [discriminate A|]. 
-      destruct (Forall2_nth_r _ _ _ _ _ (inv_nodes _ _ _ HI) Hk) as [n0 [_ HN]].
-      exact (node_loop_no_hang n0 r n Hr Hnc Hco _ _ _ _ _ _ _ _ _ _ _ HN (node_fuel_enough _ _ _ _ _ _ HN) El A).
+      assert (Hng : 0 <= r_ng r) by (destruct Hr as [_ [_ [H _]]]; exact H).
+      exact (node_loop_never_hangs r n Hnc Hco Hng _ _ _ _ _ _ _ (node_fuel_enough nd n) El A).
     + destruct (zlen slots1 =? n) eqn:En.
       * injection Hl as <- <- <- <-.
         split; [exact A|]. split; [exact B|]. split; [exact C|]. split; [|intros _ _; reflexivity].
@@ -374,15 +374,6 @@ Proof.
       * injection Hf as <- <-. cbn [nl_nodes]. auto.
       * injection Hf as <- <-. cbn [nl_nodes]. destruct (D eq_refl eq_refl) as [D1|D1]; [|contradiction].
         subst slots. rewrite app_nil_r in B. eapply Inv_functional; [exact B | exact HI].
-Qed.
-
-Lemma assert_rr_not_hang nl r n : assert_rr nl r n <> Some EHang.
-Proof.
-  unfold assert_rr. destruct (nl_ver nl) as [v|]; [|destruct (r_nc r =? 0); discriminate].
-  destruct (negb (v_uniform v)); [discriminate|]. destruct (r_nc r =? 0); [discriminate|].
-  destruct (r_lfs r =? 0); [| destruct (v_lfs v); [|discriminate]];
-    (destruct (r_mem r =? 0); [| destruct (v_mem v); [|discriminate]]);
-    (destruct (qlt _ (1, 1)); [discriminate|]; destruct (qlt _ (n, 1)); discriminate).
 Qed.
 
 (* the model's bound on the rounds of `while True` is never reached for positive core occupations *)
